@@ -465,6 +465,9 @@ class KindAnalysis:
             ci = self.prog.classes.get(cls_q)
             if ci is not None:
                 for fname, a in zip(list(ci.fields), args):
+                    if isinstance(a, ast.Starred):
+                        self.unresolved += 1  # `*pair` spreads over an unknown number of fields: the positions after it are not known
+                        break
                     if fname in MAPSPECARGS_FIELDS:
                         self.need(a, self.k(a), MAPSPECARGS_FIELDS[fname], f"_MapSpecArgs field `{fname}`")
             return None
